@@ -129,8 +129,7 @@ def run_unit(unit, variant=None, scratch=None, rlimit=None, keep=False, extra_ar
         f.write(text)
     cmd = [VERUS, fname, '--triggers-mode', 'silent', '--multiple-errors', '30', '--output-json', '--time',
            '--error-format=json']
-    if rlimit:
-        cmd += ['--rlimit', str(rlimit)]
+    cmd += ['--rlimit', str(rlimit or int(os.environ.get('VERIF_RLIMIT', '30')))]
     cmd += list(extra_args)
     res.cmd = ' '.join(cmd)
     try:
